@@ -313,6 +313,13 @@ func (c *Ctx) condLock() string {
 	out := ""
 	for _, fn := range c.W.Funcs {
 		allInstrs(fn, func(in ssa.Instruction) {
+			// r.cond = sync.NewCond(&r.mu)
+			if call, isC := in.(*ssa.Call); isC && calleeName(call) == "sync.NewCond" && len(call.Call.Args) == 1 {
+				if fr, _, ok := fieldOfAddr(stripConv(call.Call.Args[0])); ok && fr.Type == r.fc.Obj().Name() {
+					out = fr.String()
+				}
+				return
+			}
 			st, ok := in.(*ssa.Store)
 			if !ok {
 				return
